@@ -683,3 +683,16 @@ Proof.
   intros known fuel a argnames args1 args2 G K. apply C01_from_ast_lemma; auto.
   eapply gen_check_wf_lemma; eauto.
 Qed.
+
+(* ---------- the initial frame of a generated function ---------- *)
+
+Lemma frame_ok_init argnames args1 args2 :
+  Forall2 vrel args1 args2 -> length args2 = length argnames ->
+  frame_ok (map Some argnames) [] args2 0 (length argnames) [] (combine argnames args1).
+Proof.
+  intros Ha L.
+  pose proof (frame_ok_call argnames (AConst (VInt 0)) [] [] [] [] args1 args2 args2 0) as F.
+  cbn [self_binding clo_cm clo_cs map app] in F. rewrite app_nil_r in F.
+  apply F; auto; [|lia|apply pushedv_self].
+  constructor; [cbn; discriminate|auto|cbn; auto].
+Qed.
